@@ -40,6 +40,7 @@ func main() {
 	shards := flag.Int("shards", 1, "number of case files")
 	out := flag.String("out", "", "output directory")
 	only := flag.Int("only", -1, "generate only case with this index (replay)")
+	checker := flag.String("checker", "", "Coq checker term (default: the stream's full correspondence)")
 	flag.Parse()
 	sd := streams[*stream]
 	if sd == nil || *out == "" {
@@ -47,6 +48,9 @@ func main() {
 		os.Exit(2)
 	}
 	os.MkdirAll(*out, 0o755)
+	if *checker != "" {
+		sd.checker = *checker
+	}
 	st := stats{}
 	cases := make([]caseOut, 0, *n)
 	idxs := make([]int, 0, *n)
